@@ -130,6 +130,13 @@ class DataObjectProperty(DopBase):
             # numbers which are too large to be converted
             raise EncodeError(f"The value {physical_value!r} cannot be converted to "
                               f"an internal value: {e}") from e
+        if not self.compu_method.is_valid_internal_value(internal_value):
+            # e.g., because the internal value has been rounded to a
+            # value beyond its limits. Such a value would be rejected
+            # when decoding.
+            odxraise(
+                f"The value {physical_value!r} cannot be encoded because it corresponds "
+                f"to the invalid internal value {internal_value!r}", EncodeError)
         self.diag_coded_type.encode_into_pdu(internal_value, encode_state)
 
     def decode_from_pdu(self, decode_state: DecodeState) -> ParameterValue:
